@@ -1,14 +1,15 @@
 CONSTANTS
-  CacheKeyedByNameOnly = TRUE
+  CacheKeyedByNameOnly = FALSE
   ContentCacheByFile = FALSE
   ResultsAliased = FALSE
   GetMemberRewinds = FALSE
   LazyScanDiesOnFault = FALSE
-  CloseForgetsPosition = FALSE
+  CloseForgetsPosition = TRUE
   EmitH = FALSE
 SPECIFICATION Spec
 INVARIANT CacheCoherent
 INVARIANT NoOtherMemo
+INVARIANT NoHiddenState
 PROPERTY HistExact
 PROPERTY RepeatStable
 VIEW HView
